@@ -188,7 +188,11 @@ def save_performance_midi(
                 )
             )
 
-        for n in performed_part.notes:
+        # notes in time order, so that at one tick the note-off of a note is written
+        # before the note-on of a later note of the same pitch
+        for n in sorted(
+            performed_part.notes, key=lambda n: (n["note_on"], n["note_off"])
+        ):
             track = n.get("track", 0)
             ch = n.get("channel", 1)
             t_on = int(np.round(10**6 * ppq * n["note_on"] / mpq))
